@@ -37,6 +37,9 @@ func (j *JsonConverter) GraphQLDocument(introspectionJSON io.Reader) (*ast.Docum
 
 func (j *JsonConverter) importSchema() error {
 	j.doc.ImportSchemaDefinition(j.schema.TypeNames())
+	if j.schema.Description != nil {
+		j.doc.SchemaDefinitions[j.doc.SchemaDefinitionRef()].Description = j.doc.ImportDescription(*j.schema.Description)
+	}
 
 	for i := 0; i < len(j.schema.Types); i++ {
 		if err := j.importFullType(j.schema.Types[i]); err != nil {
